@@ -317,6 +317,30 @@ pub fn generate_history(corpus: &[Project], seed: u64, property: &str, flavour: 
 }
 
 /// C10: one SimFs (a corpus project as loaded, or after a few seeded edits), k variants.
+/// Another revision of a source text with the same declarations: every doc comment gets other
+/// words; a text without one gets one in front of its first exported declaration.
+pub fn doc_rewrite(content: &str, salt: usize) -> String {
+    if content.contains("/**") && content.contains("*/") {
+        let mut out = String::with_capacity(content.len() + 64);
+        let mut rest = content;
+        let mut n = 0;
+        while let Some(a) = rest.find("/**") {
+            let Some(b) = rest[a..].find("*/") else { break };
+            out.push_str(&rest[..a]);
+            let inner = &rest[a + 3..a + b];
+            out.push_str(&format!("/** revision {} block {} was:{} */", salt, n, inner.replace('\n', " ").chars().rev().collect::<String>()));
+            rest = &rest[a + b + 2..];
+            n += 1;
+        }
+        out.push_str(rest);
+        out
+    } else if let Some(p) = content.find("export ") {
+        format!("{}/** revision {} wrote this */\n{}", &content[..p], salt, &content[p..])
+    } else {
+        format!("{}\n// revision {}\n", content, salt)
+    }
+}
+
 pub fn generate_c10(corpus: &[Project], seed: u64, index: u64, k: usize) -> Run {
     let mut rng = Rng::new(seed);
     let n = corpus.len() as u64;
@@ -383,7 +407,18 @@ pub fn generate_c10(corpus: &[Project], seed: u64, index: u64, k: usize) -> Run 
                 v
             }
         };
-        variants.push(Variant { hash_seed, preregister, repeat: i % 3 == 0, diag_first: i % 5 == 4, root: None });
+        // one variant in eight is a process that has compiled two earlier revisions of a few
+        // files (same declarations, other doc comments) before it sees the real contents
+        let mut earlier = vec![];
+        if i % 8 == 6 && !files.is_empty() {
+            let mut chosen = files.clone();
+            rng.shuffle(&mut chosen);
+            chosen.truncate(rng.range(1, 2).min(files.len()));
+            for round in 0..2 {
+                earlier.push(chosen.iter().map(|f| (f.clone(), doc_rewrite(&fs[f], round))).collect());
+            }
+        }
+        variants.push(Variant { hash_seed, preregister, repeat: i % 3 == 0, diag_first: i % 5 == 4, root: None, earlier });
     }
     // one variant builds the same project checked out somewhere else
     if k >= 6 {
@@ -481,6 +516,7 @@ pub fn synthetic_project(seed: u64) -> Project {
     let own_generic = use_generic && rng.chance(1, 2);
     // kinds are drawn up front so that utility types can be applied to object types only
     let kinds: Vec<usize> = (0..n_types).map(|_| rng.below(10)).collect();
+    let tagged = rng.chance(1, 3);
     let pre_objs: Vec<usize> = (0..n_types).filter(|i| kinds[*i] < 6 || (kinds[*i] == 8 && *i == 0)).collect();
     for i in 0..n_types {
         let kind = kinds[i];
@@ -491,6 +527,11 @@ pub fn synthetic_project(seed: u64) -> Project {
             let nf = rng.range(1, 4);
             let mut fields = vec![];
             for f in 0..nf {
+                if f == 0 && tagged {
+                    // a literal-typed first field: unions of such named objects are discriminated
+                    fields.push(format!("  f0: \"v{}\";", i));
+                    continue;
+                }
                 let opt = if rng.chance(1, 4) { "?" } else { "" };
                 let t = match rng.below(12) {
                     0 | 1 => prim[rng.below(prim.len() - 1)].to_string(),
@@ -559,6 +600,10 @@ pub fn synthetic_project(seed: u64) -> Project {
             format!("{} & {{ extra{}: string }}", names[rng.below(i)], i)
         } else if kind == 8 {
             format!("{{ only{}: string }}", i)
+        } else if rng.chance(1, 3) {
+            // a named union of literals whose emitted member order is not the order JavaScript's
+            // default sort gives (mixed kinds, a member that is a prefix of another)
+            ["\"auto\" | 10 | 100 | 9", "\"done\" | \"in progress\" | \"in\"", "\"yes\" | true | 1", "\"b\" | \"a!\" | \"a\" | \"B\"", "2 | 10 | 1 | \"1\" | false | null"][rng.below(5)].to_string()
         } else if rng.chance(1, 2) && i > 0 {
             // a named nullable alias (used as a property type elsewhere)
             format!("{} | null", names[rng.below(i)])
